@@ -154,4 +154,25 @@ def run(ctx):
                 ctx.violation({"fn": "rotate", "relation": "any-angle-invariants"},
                               "rotate(%.6g) broke an invariant that holds for every angle (coordinates kept, Hs kept, non-negative)" % a,
                               {"F": v["F"], "D": v["D"], "E": v["E"], "hs": [float(da.spec.hs()), float(out.spec.hs())], "min": float(out.min())})
+    # ---- the same invariants on grids that carry the seam bin twice (0 and 360, as the TRIAXYS reader returns them): after a
+    # rotation by an angle that is not a binary fraction the two copies differ by rounding only and must still be one bin
+    dup = [v for v in some if 0 in v["D"]][: (25 if ctx.quick else 250)]
+    for v in dup:
+        order = sorted(range(len(v["D"])), key=lambda k: v["D"][k])
+        D2 = [v["D"][k] for k in order] + [360]
+        E2 = [[row[k] for k in order] + [row[order[0]]] for row in v["E"]]
+        da = L.build(v["F"], D2, E2)
+        if float(da.sum()) == 0:
+            continue
+        for a in (123.4, rng.choice((17.3, -3.75, 0.1, 200.7)), float(rng.randint(1, 359))):
+            out = da.spec.rotate(a)
+            ctx.case(("anyangle-dup", tuple(v["F"]), tuple(D2), tuple(x for r in E2 for x in r), round(a, 6)), True)
+            ok = (np.array_equal(out.dir.values, da.dir.values) and np.array_equal(out.freq.values, da.freq.values)
+                  and float(out.min()) >= -1e-12 and L.close(float(out.spec.hs()), float(da.spec.hs()), rel=1e-9))
+            if ok:
+                ctx.replayed()
+            else:
+                ctx.violation({"fn": "rotate", "relation": "any-angle-invariants", "grid": "duplicated 0/360"},
+                              "rotate(%.6g) on a grid with both 0 and 360 broke an invariant that holds for every angle (coordinates kept, Hs kept, "
+                              "non-negative)" % a, {"F": v["F"], "D": D2, "E": E2, "hs": [float(da.spec.hs()), float(out.spec.hs())], "min": float(out.min())})
     ctx.assume("exact comparison on the lattice at 1e-9; targets outside [0,360) are not generated")
